@@ -174,8 +174,8 @@ class Net(object):
         # but keeps sending / polling becomes a verdict with a witness
         # instead of a wall-clock watchdog (which is inconclusive).  A
         # harness may set tighter budgets for one call.
-        self.tx_budget = 3000000
-        self.select_budget = 20000000
+        self.tx_budget = 600000
+        self.select_budget = 4000000
         self.truncated = 0
         self._n = itertools.count()
 
